@@ -218,7 +218,18 @@ def first_diff(e, g, path=()):
     if not (isinstance(e, list) and isinstance(g, list)) or not e or not g or e[0] != g[0]:
         return path, e, g
     t = e[0]
-    if t in ('tuple', 'list', 'frozenset', 'set') and len(e) > 1 and isinstance(e[1], list) and len(e[1]) == len(g[1]):
+    if t in ('frozenset', 'set') and len(e) > 1 and isinstance(e[1], list) and len(e[1]) == len(g[1]):
+        # signatures of sets are sorted by repr: a changed element may sit at another position, so pair the elements
+        # that are not common to both sides by their skeleton (container kinds and lengths) before descending
+        eo = [x for x in e[1] if x not in g[1]]
+        go = [x for x in g[1] if x not in e[1]]
+        for a in eo:
+            b = next((y for y in go if _skel(y) == _skel(a)), None)
+            if b is not None:
+                return first_diff(a, b, path + (t,)) or (path + (t,), a, b)
+        if eo and go:
+            return first_diff(eo[0], go[0], path + (t,)) or (path + (t,), eo[0], go[0])
+    if t in ('tuple', 'list') and len(e) > 1 and isinstance(e[1], list) and len(e[1]) == len(g[1]):
         for a, b in zip(e[1], g[1]):
             d = first_diff(a, b, path + (t,))
             if d:
@@ -234,6 +245,14 @@ def first_diff(e, g, path=()):
             if d:
                 return d
     return path, e, g
+
+
+def _skel(x):
+    if isinstance(x, list) and len(x) > 1 and isinstance(x[1], list):
+        return [x[0], [_skel(c) for c in x[1]]]
+    if isinstance(x, list) and x and x[0] == 'slice':
+        return ['slice']
+    return 'leaf'
 
 
 def _num(leaf):
